@@ -129,7 +129,8 @@ struct Compiler {
     scope_depth: usize,
     lambda_count: usize,
     in_try_block: bool,
-    loop_stack: Vec<(usize, usize)>,
+    try_depth: usize,
+    loop_stack: Vec<(usize, usize, usize)>,
     break_stack: Vec<Vec<usize>>,
 }
 
@@ -164,6 +165,7 @@ impl Compiler {
             scope_depth: 0,
             lambda_count: 0,
             in_try_block: false,
+            try_depth: 0,
             loop_stack: Vec::new(),
             break_stack: Vec::new(),
         }
@@ -249,7 +251,8 @@ impl Compiler {
 
     fn push_loop(&mut self) {
         let loop_start = self.chunk.code.len();
-        self.loop_stack.push((loop_start, self.scope_depth));
+        self.loop_stack
+            .push((loop_start, self.scope_depth, self.try_depth));
         self.break_stack.push(Vec::new());
     }
 
@@ -273,7 +276,7 @@ impl Compiler {
         Ok(())
     }
 
-    fn current_loop_header(&self) -> Option<(usize, usize)> {
+    fn current_loop_header(&self) -> Option<(usize, usize, usize)> {
         self.loop_stack.last().copied()
     }
 }
@@ -795,7 +798,7 @@ impl<'a> Parser<'a> {
         self.mark_initialised();
 
         self.compiler_mut().push_loop();
-        let (loop_start, _) = self
+        let (loop_start, _, _) = self
             .compiler()
             .current_loop_header()
             .expect("Expected usize.");
@@ -867,13 +870,14 @@ impl<'a> Parser<'a> {
     }
 
     fn break_statement(&mut self) {
-        let scope_depth = match self.compiler().current_loop_header() {
-            Some((_, depth)) => depth,
+        let (scope_depth, try_depth) = match self.compiler().current_loop_header() {
+            Some((_, scope_depth, try_depth)) => (scope_depth, try_depth),
             None => {
                 self.compiler_error(CompilerError::InvalidControlStatement);
                 return;
             }
         };
+        self.emit_exc_handler_pops(try_depth);
         // Discard the locals of the loop body before leaving it.
         self.emit_scope_end(false, scope_depth);
         let break_pos = self.emit_jump(OpCode::Jump);
@@ -888,13 +892,14 @@ impl<'a> Parser<'a> {
     }
 
     fn continue_statement(&mut self) {
-        let (jump_target, scope_depth) = match self.compiler().current_loop_header() {
-            Some((pos, depth)) => (pos, depth),
+        let (jump_target, scope_depth, try_depth) = match self.compiler().current_loop_header() {
+            Some(header) => header,
             None => {
                 self.error("Cannot use 'continue' statement outside of loop body.");
                 return;
             }
         };
+        self.emit_exc_handler_pops(try_depth);
         self.emit_scope_end(false, scope_depth);
         self.emit_loop(jump_target);
         self.consume(TokenKind::SemiColon, "Expected ';' after 'continue'.");
@@ -909,6 +914,7 @@ impl<'a> Parser<'a> {
     fn try_statement(&mut self) {
         let prev_in_try_block = self.compiler().in_try_block;
         self.compiler_mut().in_try_block = true;
+        self.compiler_mut().try_depth += 1;
 
         self.emit_byte(OpCode::PushExcHandler as u8);
         let handler_catch_arg_pos = self.chunk().code.len();
@@ -921,6 +927,7 @@ impl<'a> Parser<'a> {
         self.block();
         self.end_scope();
         self.compiler_mut().in_try_block = prev_in_try_block;
+        self.compiler_mut().try_depth -= 1;
 
         self.emit_byte(OpCode::PopExcHandler as u8);
         let catch_jump_pos = self.emit_jump(OpCode::Jump);
@@ -1130,6 +1137,13 @@ impl<'a> Parser<'a> {
             self.emit_byte(OpCode::JumpFinally as u8);
         }
         self.emit_byte(OpCode::Return as u8);
+    }
+
+    /// Pops the handlers of the try blocks entered since `try_depth`, for a jump out of them.
+    fn emit_exc_handler_pops(&mut self, try_depth: usize) {
+        for _ in try_depth..self.compiler().try_depth {
+            self.emit_byte(OpCode::PopExcHandler as u8);
+        }
     }
 
     fn emit_scope_end(&mut self, pop_locals: bool, scope_depth: usize) {
